@@ -26,7 +26,8 @@
  *       Sx Sj Sl     print the shared tree (XML / JSON / LYB)
  *       Sf<path> Sq<xpath> Sv<xpath>   lyd_find_path / lyd_find_xpath / lyd_eval_xpath on the shared tree
  *       Sc           lyd_compare_siblings of the shared tree against a private copy (parsed from the same LYB)
- *       W<k> N       wait until the case-wide sequence counter is >= k (at most 2 s) / increment it
+ *       W<k> N       wait until the case-wide sequence counter is >= k (at most 4 s; a run in which a wait timed out is
+ *                    repeated, at most twice) / increment it
  *       H<k>         arm: at this thread's next unlock of ctx->lyb_hash_lock increment the counter, wait until it is >= k,
  *                    then report whether the error table arena (err_ht->recs) was reallocated meanwhile. While the thread
  *                    waits, a free() of that arena by libyang zeroes and keeps the memory (see __wrap_free), so that the
@@ -181,16 +182,20 @@ seq_signal(void)
     __real_pthread_mutex_unlock(&seq_mx);
 }
 
+static long seq_timeouts;
+
 static void
 seq_wait(int k)
 {
     struct timespec ts;
 
     clock_gettime(CLOCK_REALTIME, &ts);
-    ts.tv_sec += 2;
+    ts.tv_sec += 4;
     __real_pthread_mutex_lock(&seq_mx);
     while (seq < k) {
         if (pthread_cond_timedwait(&seq_cv, &seq_mx, &ts) == ETIMEDOUT) {
+            /* the forced schedule was not realised (a stalled machine, or the code under test now blocks at a hook) */
+            ++seq_timeouts;
             break;
         }
     }
@@ -1285,7 +1290,23 @@ main(void)
         for (int rep = 0; !rc && (rep < reps); ++rep) {
             int nf0 = notfreed;
 
-            rc = run_concurrent(nthr, TC, &c.f[base]);
+            /* a forced schedule that ran into a timeout is tried again (twice) */
+            for (int attempt = 0; attempt < 3; ++attempt) {
+                long to0 = seq_timeouts;
+                int nf1 = notfreed;
+
+                rc = run_concurrent(nthr, TC, &c.f[base]);
+                if (rc || (seq_timeouts == to0) || (attempt == 2)) {
+                    break;
+                }
+                for (int k = nf1; (k < notfreed) && (k < 64); ++k) {
+                    free(notfreed_strs[k]);
+                    notfreed_strs[k] = NULL;
+                }
+                notfreed = nf1;
+                dict_bad = 0;
+                dangling = 0;
+            }
             if (rc) {
                 break;
             }
